@@ -591,18 +591,21 @@ def exp_h1_part(chk: Check, cases=None):
     for c in cases[:: max(1, len(cases) // 6)]:
         rng = np.random.default_rng(c["seed"] + 78)
         n = c["n"]
-        prop = propagation.propagator_cpmc(dt=c["dt"], n_walkers=4)
+        # (every third case at a LARGE time step, 0.4: a truncated series for the matrix exponential is exact to 1e-16 at
+        # dt = 0.01 and off by 1e-7 there)
+        dt_h = 0.4 if (c["seed"] + n) % 3 == 0 else c["dt"]
+        prop = propagation.propagator_cpmc(dt=dt_h, n_walkers=4)
         trial, wd, hd, K, lat, _ = hubbard_setup(c["lat"], n, tuple(c["nelec"]), c["U"], c["kind"], rng, c["nonuniform"], 4, prop)
         field = np.diag(0.4 * (-1.0) ** np.arange(n) + 0.1 * rng.standard_normal(n))
         Ks = [K + field, K - field]
         hd2 = {"h0": 0.0, "h1": jnp.array(np.array(Ks)), "chol": jnp.zeros((1, n * n)), "ene0": 0.0, "u": c["U"]}
         # (every other case: the dictionary was first prepared for a propagator with another time step, then prepared again)
         if (c["seed"] + n) % 2 == 0:
-            prop0 = propagation.propagator_cpmc(dt=2.5 * c["dt"], n_walkers=4)
+            prop0 = propagation.propagator_cpmc(dt=2.5 * dt_h, n_walkers=4)
             hd2 = hamiltonian.hamiltonian(n).build_propagation_intermediates(hd2, prop0, trial, wd)
         hd2 = hamiltonian.hamiltonian(n).build_propagation_intermediates(hd2, prop, trial, wd)
         got = np.asarray(hd2["exp_h1"])
-        resid = float(max(np.max(np.abs(got[sp] - expm(-c["dt"] * Ks[sp] / 2.0))) for sp in (0, 1)))
+        resid = float(max(np.max(np.abs(got[sp] - expm(-dt_h * Ks[sp] / 2.0))) for sp in (0, 1)))
         chk.case(("exp_h1-nochol", c["lat"], n, c["kind"]))
         chk.traces += 1
         if resid > 1e-12:
